@@ -94,8 +94,9 @@ def _http_conn(db_path=":isolated:", database="DB1", schema="S1"):
     sp = {"CLIENT_OUT_OF_BAND_TELEMETRY_ENABLED": False}
     if db_path:
         sp["FAKESNOW_DB_PATH"] = db_path
+    ctx = {k: v for k, v in (("database", database), ("schema", schema)) if v is not None}
     return _real_connect()(user="fake", password="snow", account="fakesnow", host="localhost", port=_server_port(),
-                           protocol="http", session_parameters=sp, network_timeout=NET_TIMEOUT["s"], database=database, schema=schema)
+                           protocol="http", session_parameters=sp, network_timeout=NET_TIMEOUT["s"], **ctx)
 
 
 # ------------------------------------------------------------------------------------------------
@@ -462,11 +463,17 @@ def _worker_b(shard):
     _real_connect()
 
     def run_hist(hist):
-        http = _http_conn()
+        login = {"database": "DB1", "schema": "S1"}
+        if hist and hist[0][0] == "login":
+            login = json.loads(hist[0][1])
+        http = _http_conn(database=login.get("database"), schema=login.get("schema"))
         res = []
         with fakesnow.patch():
-            inpr = snowflake.connector.connect(database="DB1", schema="S1")
+            inpr = snowflake.connector.connect(**{k: v for k, v in login.items() if v is not None})
             for si, (kind, sql) in enumerate(hist):
+                if kind == "login":
+                    res.append(({"k": "L"}, {"k": "L"}))
+                    continue
                 _progress(PROGRESS.get("task"), si, sql)
                 b = _observe(inpr, sql)
                 a = _observe(http, sql)
@@ -611,6 +618,19 @@ def _run_b(chk, rnd, nhist: int):
         hists.append((i, _gen_history(rnd, i, force_types=[ty, ty])))
     for i in range(len(COLTYPES), nhist):
         hists.append((i, _gen_history(rnd, i)))
+    # logins with every combination of database / schema given or omitted (and lower-case spellings): each login is its own
+    # session with exactly the context it asked for — same first statements over HTTP and in-process
+    for li, login in enumerate([{"database": "DB1", "schema": None}, {"database": None, "schema": None}, {"database": "db1", "schema": "s1"},
+                                {"database": "DB1", "schema": "S1"}, {"database": None, "schema": "S1"}, {"database": "lg", "schema": None}]):
+        h = [("login", json.dumps(login)), ("ctx", "select current_database(), current_schema()"), ("show", "show schemas"),
+             ("create", "create table LT (id int, c varchar)"), ("insert", "insert into LT values (1, 'x')"), ("select", "select * from LT"),
+             ("show", "show tables")]
+        if login["database"] is None:
+            h += [("create-db", "create database DBL"), ("use", "use database DBL"), ("ctx", "select current_database(), current_schema()")]
+        h += [("create-schema", "create schema LS"), ("use", "use schema LS"), ("ctx", "select current_database(), current_schema()"),
+              ("create", "create table LT (id int, c varchar)"), ("insert", "insert into LT values (2, 'y'), (3, NULL)"),
+              ("select", "select * from LT order by id"), ("show", "show schemas")]
+        hists.append((nhist + 10 + li, h))
     # large results (more than one DuckDB vector / more than 1000 rows — still ONE arrow record batch up to 1 000 000 rows)
     big = [("create", "create table BIG as select i as id, i * 1.5 as f, 'r' || i as s, case when i % 3 = 0 then null else i end as n, "
                       "(i % 1000)::number(10,2) / 8 as d from range(10000) t(i)")]
@@ -646,6 +666,8 @@ def _run_b(chk, rnd, nhist: int):
     for shard, res in zip(shards, reals):
         for (hid, hist), obs in zip(shard, res):
             for si, ((kind, sql), (a, b)) in enumerate(zip(hist, obs)):
+                if kind == "login":
+                    continue
                 lines.append("http\tresp\t" + _obs_exec(b))
                 index.append((hid, si))
                 all_obs.append((hid, hist, si, kind, sql, a, b))
@@ -820,9 +842,11 @@ def _run_a(chk, rnd, thorough: bool):
     size = 10**6 // nsh
     step = 1 if thorough else 53       # sample of each shard that also goes through the Lean model
     shards = []
-    combos = [(EPOCHS[0], False), (EPOCHS[1], False), (EPOCHS[1], True), (EPOCHS[0], True)]
+    # quick: all 10^6 fractions for a pre-1970 NTZ second and a post-1970 TZ second (every fraction x both signs of the epoch x both
+    # struct layouts); thorough adds the two other sign/layout pairs and the years 1 and 9999
+    combos = [(EPOCHS[1], False), (EPOCHS[0], True)]
     if thorough:
-        combos += [(EPOCHS[2], False), (EPOCHS[3], True)]
+        combos += [(EPOCHS[0], False), (EPOCHS[1], True), (EPOCHS[2], False), (EPOCHS[3], True)]
     for epoch_s, tz in combos:
         for i in range(nsh):
             lo, hi = i * size, (10**6 if i == nsh - 1 else (i + 1) * size)
@@ -974,14 +998,14 @@ def _gen_session_history(rnd, hid: int) -> list:
     rnd.shuffle(pending)
     # first login up front, others interleaved
     nm, b = pending.pop()
-    reqs.append(("L", nm, b, rnd.randint(1, 3)))
+    reqs.append(("L", nm, b, rnd.choice([0, 1, 2, 3])))      # 0 = the login names a database but no schema
     live.append(nm)
     v = 0
     for _ in range(rnd.randint(8, 22)):
         r = rnd.random()
         if pending and r < 0.15:
             nm, b = pending.pop()
-            reqs.append(("L", nm, b, rnd.randint(1, 3)))
+            reqs.append(("L", nm, b, rnd.choice([0, 1, 2, 3])))      # 0 = the login names a database but no schema
             live.append(nm)
             continue
         if r < 0.3:
@@ -1025,7 +1049,7 @@ def _gen_session_history(rnd, hid: int) -> list:
         reqs.append(("Q", who, q))
     while pending:
         nm, b = pending.pop()
-        reqs.append(("L", nm, b, rnd.randint(1, 3)))
+        reqs.append(("L", nm, b, rnd.choice([0, 1, 2, 3])))      # 0 = the login names a database but no schema
         live.append(nm)
     # final sweep: full observable state of every session
     for nm in live:
@@ -1079,7 +1103,7 @@ def _worker_c(shard):
                     d = tempfile.mkdtemp(prefix="c17-")
                     tmpdirs.append(d)
                     dbp = d
-                c = _http_conn(db_path=dbp, database="SHARED_DB", schema=f"S{sch}")
+                c = _http_conn(db_path=dbp, database="SHARED_DB", schema=f"S{sch}" if sch else None)
                 conns[nm] = c
                 tokens[nm] = c.rest.token
                 resp.append(f"T:{nm}")
@@ -1101,7 +1125,8 @@ def _worker_c(shard):
                     elif p0 == "gv":
                         resp.append(f"V:{rows[0][0]}")
                     elif p0 == "cs":
-                        resp.append(f"C:{rows[0][0]}")
+                        # without a current schema DuckDB's own `main` shows through (C03: `main` ≡ no current schema)
+                        resp.append("C:None" if rows[0][0] in (None, "main") else f"C:{rows[0][0]}")
                     else:
                         resp.append("R:" + ",".join(str(x[0]) for x in rows))
                 except E.ProgrammingError as e:
@@ -1172,7 +1197,7 @@ def _model_line_c(reqs) -> tuple[str, list]:
     for r in reqs:
         if r[0] == "L":
             _, nm, b, sch = r
-            items.append(f"L:{enc_str(nm)}:{b}:{sch}")
+            items.append(f"L:{enc_str(nm)}:{b}:{sch if sch else '-'}")
             shape.append(("L", nm))
             continue
         _, who, q = r
@@ -1203,7 +1228,7 @@ def _norm_model_resp(m: str, shape) -> str:
     if shape[0] == "Q" and (shape[1].startswith("raw:")) and k[0] in ("S", "V", "C", "R"):
         return "RAWERR" if m == "V:-" else "RAWOK"
     if k[0] == "C":
-        return f"C:S{k[1]}"
+        return "C:None" if k[1] == "-" else f"C:S{k[1]}"
     if k[0] == "U":
         return f"U:{k[1]}:False"
     return m
@@ -1285,9 +1310,9 @@ def run(chk) -> None:
             if not chk.violations:
                 raise
             chk.notes.append(f"{fn.__name__} not completed: {e}")
-    part(_run_b, 1000 if thorough else 100)
+    part(_run_b, 1000 if thorough else 70)
     t2 = time.time()
-    part(_run_c, 700 if thorough else 65)
+    part(_run_c, 700 if thorough else 50)
     chk.extra["wall_parts_s"] = {"A": round(t1 - t0, 1), "B": round(t2 - t1, 1), "C": round(time.time() - t2, 1)}
     chk.exhaustive = True
     chk.extra["exhaustive_part"] = "all 10^6 microsecond fractions per (epoch, tz) combination; all NULL placements of columns of length ≤ 4; the whole types.py table"
